@@ -27,7 +27,7 @@ RULE = ("(a) PolynomialCalibrator / SplineCalibrator.calibrate over Hypothesis-g
         "raw_value = the uncalibrated value; enumeration = label of the raw value or ValueError; boolean = bool(raw); "
         "both ignore calibrators. Non-trivial: query on a knot/end point or outside the range; >= 2 context "
         "calibrators with >= 1 match; enumeration/boolean with a calibrator attached or a falsy raw value.")
-ASSUMPTIONS = ["coefficients are finite and all terms stay within 1e300 (float overflow is not judged); non-finite queries "
+ASSUMPTIONS = ["coefficients are finite and all terms - and the powers x**n on their own, whatever the coefficient - stay within 1e300 (float overflow is not judged); non-finite queries "
                "are judged only for splines without extrapolation (they lie outside every closed range -> CalibrationError)",
                "a Comparison inside a context calibrator may reference the parameter being decoded only with "
                "useCalibratedValue=false (the documented own-raw-value case)"]
